@@ -33,7 +33,9 @@ MODES = {
     "rs+file-transformation": gitskin.RS_ARGS + ["--file-transformation", "s,Z,Q,"],
 }
 UNTRANSFORM = {nm.replace("Z", "Q", 1): nm for nm in gitskin.FILES.values()}
-_PATH = re.compile(r"^(?:[\w./ -]*/)?(?:alpha|beta|gamma)Z[123]Z\.rs$")
+_PATH = re.compile(r"^(?:[\w./ -]*/)?(?:alpha|beta|gamma)(?:\{line\}|\{host\}|\{path\})?Z[123]Z\.rs$")
+# file names that contain the text of a link-format placeholder
+PLACEHOLDER_NAMES = {1: "alpha{line}Z1Z.rs", 2: "beta{host}Z2Z.rs", 3: "gamma{path}Z3Z.rs"}
 
 
 def link_spans(row):
@@ -86,9 +88,14 @@ def run(tier):
         # 0: delta runs in the directory the paths are relative to; 1: git ran it from a subdirectory (GIT_PREFIX);
         # 2: ... with --relative-paths, and a `git log --stat` preamble whose paths delta rewrites
         jobs.append((h, mode, tname, (1 if i % 7 == 0 else 2 if i % 7 == 3 else 0), i % len(CTEMPLATES)))
+    # the same, for files whose names contain "{line}", "{host}", "{path}"
+    for i, h in enumerate(hists[:120 if tier == "quick" else 1200]):
+        jobs.append((h, list(MODES)[i % len(MODES)], list(TEMPLATES)[(i // 2) % len(TEMPLATES)], 10 + (1 if i % 5 == 0 else 0), i % len(CTEMPLATES)))
 
     def one(job):
         h, mode, tname, insub, ct = job
+        nskin = {"names": PLACEHOLDER_NAMES} if insub >= 10 else {}
+        insub = insub % 10
         def payload(k, c):
             if c == "other" and insub == 2:
                 return [" alphaZ1Z.rs         |  3 ++-", " sub dir/betaZ2Z.rs   | 10 +++++-----", " 2 files changed, 7 insertions(+)"][k % 3]
@@ -96,7 +103,7 @@ def run(tier):
         if insub == 2:
             Lk = lambda c: {"c": c, "f": 0, "g": 0, "kd": ""}
             h = [Lk("commit"), Lk("other"), Lk("other"), Lk("other"), Lk("other")] + [l for l in h]
-        data, texts = gitskin.concretise(h, payload=payload, skin={"other_payload": True} if insub == 2 else None)
+        data, texts = gitskin.concretise(h, payload=payload, skin=dict(nskin, other_payload=True) if insub == 2 else (nskin or None))
         if ct == 1 and insub != 2:
             # as git hands it to its pager: coloured (transparency must hold for coloured input too)
             data = "".join(t + "\n" for t in gitskin.colourise(h, texts, 1 + len(h) % 4)).encode()
@@ -114,8 +121,23 @@ def run(tier):
     res = core.pmap(one, jobs)
     intern = gitskin.Interner()
     rel, term, links = [], [], []
+    # delta started in a directory that has been deleted: no absolute path can be formed, so no file link can be made -
+    # and nothing else may change
+    GONE = 'd=$(mktemp -d) && cd "$d" && rmdir "$d" && exec "$@"'
+
+    def gone_one(h):
+        data, texts = gitskin.concretise(h)
+        pre = ("-c", GONE, "sh", core.DELTA, "--paging", "never")
+        args = gitskin.RS_ARGS + ["--line-numbers"]
+        return (core.run_delta(args + ["--hyperlinks"], data, binary="/bin/sh", prefix_args=pre),
+                core.run_delta(args, data, binary="/bin/sh", prefix_args=pre))
+    gone_hists = [h for h in hists if any(l["c"] in ("plus", "zero") for l in h)][:40 if tier == "quick" else 400]
+    gone_res = core.pmap(gone_one, gone_hists)
     root = os.path.join(core.scratch(), "cwd")
     for i, ((h, mode, tname, insub, ct), (w, wo)) in enumerate(zip(jobs, res)):
+        names = PLACEHOLDER_NAMES if insub >= 10 else gitskin.FILES
+        untransform = {nm.replace("Z", "Q", 1): nm for nm in names.values()}
+        insub = insub % 10
         if w.code != 0 or wo.code != 0:
             V.violation(f"exit:{mode}", f"delta exited {w.code}/{wo.code} in mode {mode}", {"run": w.to_json()})
             continue
@@ -131,14 +153,14 @@ def run(tier):
                 base = os.path.join(root, "sub dir") if insub == 2 else root     # what displayed paths are relative to
                 hhpath = "".join(g for g, kd, wd, c in cells if kd == "hhFile")
                 if mode == "rs+file-transformation":
-                    for shown, real in UNTRANSFORM.items():
+                    for shown, real in untransform.items():
                         hhpath = hhpath.replace(shown, real)
                 hhline = "".join(g for g, kd, wd, c in cells if kd == "hhLine")
                 lks = []
                 for text, url in link_spans(rb):
                     t = text.strip()
                     if mode == "rs+file-transformation":      # undo the display transformation to know which file is meant
-                        for shown, real in UNTRANSFORM.items():
+                        for shown, real in untransform.items():
                             t = t.replace(shown, real)
                     if t.endswith(" (binary file)"):
                         t = t[:-len(" (binary file)")]     # a note delta appends to the displayed name
@@ -153,14 +175,21 @@ def run(tier):
                     # the file a link on a path must point to is the file of that name in the input (its path from the
                     # repository root), however the path is displayed (relative to the user's directory, ...)
                     # (a diffstat line names its own path, which need not be one of the diff's files)
-                    fid = (next((f for f, nm in gitskin.FILES.items() if os.path.basename(t) == nm), None)
+                    fid = (next((f for f, nm in names.items() if os.path.basename(t) == nm), None)
                            if kind == "path" and p["t"] in ("fileHdr", "hunkHdr") else None)
                     lks.append({"text": t, "url": url, "kind": kind, "line": line,
-                                "abs": (os.path.normpath(os.path.join(root, gitskin.bare_path(fid, {}))) if fid
+                                "abs": (os.path.normpath(os.path.join(root, names[fid])) if fid
                                         else os.path.normpath(os.path.join(base, t))) if kind == "path" else ""})
                 k = p["t"] if p["t"] in ("fileHdr", "hunkHdr", "commit") else ("code" if p["t"] in ("minus", "plus", "zero") else "other")
                 rows.append({"k": k, "abs": os.path.normpath(os.path.join(base, hhpath)) if hhpath else "", "links": lks})
             links.append({"run": i, "parts": TEMPLATES[tname][1], "cparts": CTEMPLATES[ct][1], "cwd": root, "host": host, "rows": rows})
+    n_main = len(jobs)
+    for j, (w, wo) in enumerate(gone_res):
+        if w.code != 0 or wo.code != 0:
+            V.violation("exit:cwd-gone", f"delta exited {w.code}/{wo.code} when started in a deleted directory", {"run": w.to_json()})
+            continue
+        rel.append({"run": n_main + j, "kind": "equal", "x": [intern(b) for b in lexer.strip_osc8(w.out).split(b"\n")],
+                    "y": [intern(x) for x in wo.out.split(b"\n")], "z": [], "ex": []})
     f_rel, r1 = tlc.validate_trace("Trace_Rel", rel)
     n = max(1, min(6, len(term) // 20000 + 1))
     outs = core.pmap(lambda ch: tlc.validate_trace("Trace_Term", ch, heap="3g"), [term[i::n] for i in range(n)], jobs=n)
@@ -172,6 +201,12 @@ def run(tier):
     if nlinks < 50:
         raise core.ToolError("hardly any hyperlink was observed: the check would be vacuous")
     for f in f_rel:
+        if f["run"] >= n_main:
+            h = gone_hists[f["run"] - n_main]
+            V.violation(f"transparent:cwd-gone:{stream.shape(h)[:200]}", "started in a deleted directory, the output with OSC 8 sequences removed "
+                        f"differs from the run without --hyperlinks at row {f['at']} ([{stream.shape(h)[:160]}])",
+                        {"history": h, "run": gone_res[f["run"] - n_main][0].to_json()})
+            continue
         h, mode, tname, insub, ct = jobs[f["run"]]
         V.violation(f"transparent:{mode}:{stream.shape(h)[:200]}", f"output with OSC 8 sequences removed differs from the run without "
                     f"--hyperlinks at row {f['at']} (mode {mode}, [{stream.shape(h)[:160]}])",
